@@ -331,6 +331,15 @@ pub fn run(r: &mut R) {
         if derive != "Debug":
             out.append(Case("c%d" % (start + len(out)), mod, meta={"derive": derive, "shape": "macro-caller literal enum", "n": 1,
                                                                   "sample": "macro_rules! mk { ($n:ident, $msg:literal, $m2:literal) => { %s } } mk!(S, \"<{_variant}>\", \"a{_0}a\");" % decl}))
+    # a FIELD named `_variant` (the name the enum-level format uses for the variant's own text)
+    for derive, (attr, ph) in TRAITS.items():
+        mod = """use super::*;
+#[derive(derive_more::%s)] #[%s("v={_variant} f={f}")] pub struct S { pub _variant: u8, pub f: u8 }
+#[derive(derive_more::%s)] pub enum E { #[%s("v={_variant}|{f:>3}")] A { _variant: u8, f: u8 } }
+pub fn run(r: &mut R) {
+    r.eq("struct", format!(%s, S { _variant: 7, f: 2 }), "v=7 f=2".to_string()); r.eq("variant", format!(%s, E::A { _variant: 7, f: 2 }), "v=7|  2".to_string());
+}""" % (derive, attr, derive, attr, lit_rs(ph), lit_rs(ph))
+        out.append(Case("c%d" % (start + len(out)), mod, meta={"derive": derive, "shape": "field named _variant", "n": 1, "sample": '#[derive(%s)] #[%s("v={_variant} f={f}")] struct S { _variant: u8, f: u8 }' % (derive, attr)}))
     return out
 
 
